@@ -189,7 +189,16 @@ fn scenario(rng: &mut Rng) -> (Program, &'static str) {
                     ps.push(prop(&format!("a{i}"), app));
                 }
             }
-            stmts.push(res("x", obj(ps)));
+            // every other case gives each application a resource of its own: instantiations in different `res`
+            // statements (each the first application of its statement) are different instantiations all the same
+            let spread = k > 1 && rng.chance(1, 2);
+            if spread {
+                for (i, pr) in ps.into_iter().enumerate() {
+                    stmts.push(res(&format!("x{i}"), obj(vec![pr])));
+                }
+            } else {
+                stmts.push(res("x", obj(ps)));
+            }
             let p = Program {
                 modules: vec![Module {
                     file: "main.oal".into(),
@@ -198,7 +207,7 @@ fn scenario(rng: &mut Rng) -> (Program, &'static str) {
                 decls,
                 n_recs: 2,
             };
-            (p, "rec-in-function")
+            (p, if spread { "rec-in-function-across-resources" } else { "rec-in-function" })
         }
         1 => {
             // ring of k mutually recursive object declarations, used from main (possibly through a module)
